@@ -101,6 +101,28 @@ Theorem C04_chained_base_frozen : forall e s o, ch_base (ch_apply e s o) = ch_ba
 Proof. exact ch_base_frozen. Qed.
 Print Assumptions C04_chained_base_frozen.
 
+(* ---- Layer 2, MODEL ONLY (the guarded command layer of Model.v; it is NOT tied to
+   edb/schema/delta.py -- the real DDL commands are covered by monitors only, see
+   harness/props/c04.py).  [RefInt e s]: every id held in a reference field of an object of s
+   is itself in s.  [wf_cmd]: DROP handles carry the stored classes. ---- *)
+Theorem C04_cmd_index_inv : forall e s c s',
+  wf_env e -> Inv e s -> wf_cmd s c -> cmd_step e s c = inl s' -> Inv e s'.
+Proof. exact cmd_inv. Qed.
+Print Assumptions C04_cmd_index_inv.
+
+(* create / alter (references must resolve) and drop (refused while anything outside the
+   dropped set refers to a member, decided from the reverse index) keep every reference
+   resolvable *)
+Theorem C04_cmd_refint : forall e s c s',
+  wf_env e -> Inv e s -> RefInt e s -> wf_cmd s c -> cmd_step e s c = inl s' -> RefInt e s'.
+Proof. exact cmd_refint. Qed.
+Print Assumptions C04_cmd_refint.
+
+Theorem C04_cmd_refint_reachable : forall e, wf_env e ->
+  forall cs, wf_cmd_hist e empty cs -> Inv e (cmd_run e empty cs) /\ RefInt e (cmd_run e empty cs).
+Proof. exact p_cmd_reachable. Qed.
+Print Assumptions C04_cmd_refint_reachable.
+
 (* ---- non-vacuity: a concrete environment and history meeting every hypothesis ---- *)
 Definition ex_ci34 : cinfo :=      (* Module *)
   {| c_qual := false; c_sn := false; c_gobj := false; c_nf := 6; c_name := 2; c_refs := [5] |}.
@@ -151,3 +173,30 @@ Proof. vm_compute. reflexivity. Qed.
 
 Example ex_inv : Inv ex_env (run ex_env empty ex_ops).
 Proof. apply C04_index_inv_reachable; [exact ex_wf_env | exact ex_wf_hist]. Qed.
+
+(* a command history: create module / types with references, a refused drop (still referred
+   to), a refused create (dangling reference), then drop of referrer and target together *)
+Definition ex_cmds : list cmd :=
+  [ CCreate 1 34 [(2, VName (UName 0))];
+    CCreate 2 40 [(2, VName (QName 0 5))];
+    CCreate 3 40 [(2, VName (QName 0 6)); (6, VRefs [2; 3])];
+    CDrop [(40, 2)];                                      (* refused: 3 refers to 2 *)
+    CCreate 4 40 [(2, VName (QName 0 7)); (6, VRefs [9])]; (* refused: 9 is not there *)
+    CAlter 40 3 6 (Some (VRefs [2]));
+    CDrop [(40, 3); (40, 2)] ].
+
+Example ex_cmd_results :
+  map (fun p => match cmd_step ex_env (cmd_run ex_env empty (firstn p ex_cmds)) (nth p ex_cmds (CDrop [])) with
+                | inl _ => 0 | inr CGuard => 1 | inr (COp _) => 2 end)
+      [0%nat; 1%nat; 2%nat; 3%nat; 4%nat; 5%nat; 6%nat]
+  = [0; 0; 0; 1; 1; 0; 0].
+Proof. vm_compute. reflexivity. Qed.
+
+Example ex_wf_cmd_hist : wf_cmd_hist ex_env empty ex_cmds.
+Proof.
+  vm_compute. repeat split; auto;
+    intros hc i H; repeat (destruct H as [H|H]; [inversion H; subst; vm_compute; auto|]); destruct H.
+Qed.
+
+Example ex_cmd_final : s_type (cmd_run ex_env empty ex_cmds) = [(1, 34)].
+Proof. vm_compute. reflexivity. Qed.
